@@ -27,7 +27,13 @@ func C12CLI(r *simkit.Run) {
 	}
 	k := 1 + t.Draw("fail-at", n-1) // statement k fails: k statements are recorded as applied
 	good := v.Stmts[k]
-	v.Stmts[k] = MkStmt("f2", k, KBad)
+	// The partial state comes from a failing statement (the revision then carries its error text)
+	// or from a process that is killed right after the bookkeeping write of statement k-1 (the
+	// revision is partial and says nothing about an error).
+	killed := t.Chance("partial-by-killed-process", 1, 3)
+	if !killed {
+		v.Stmts[k] = MkStmt("f2", k, KBad)
+	}
 	files = append(files, v)
 	if t.Chance("successor", 1, 3) {
 		f := &MFile{Idx: 3, Version: Version(3), Name: Version(3) + "_f3.sql"}
@@ -38,15 +44,35 @@ func C12CLI(r *simkit.Run) {
 	apply := func() CmdResult {
 		return w.Atlas(nil, "migrate", "apply", "--dir", w.DirURL(), "--url", w.URL(), "--tx-mode", "none")
 	}
-	res := apply()
+	var res CmdResult
+	if killed {
+		pre := 0
+		if len(files) > 0 && files[0] != v {
+			pre = len(files[0].Stmts)
+		}
+		res = w.Atlas([]string{fmt.Sprintf("VERIF_CRASH_AT=exec:after-stmt-write:%d", pre+k)}, "migrate", "apply", "--dir", w.DirURL(), "--url", w.URL(), "--tx-mode", "none")
+		w.ExpireLease()
+	} else {
+		res = apply()
+	}
 	d := w.Observe()
 	rev, ok := d.Rev(v.Version)
-	r.Logf("partial apply -> %s revs=[%s]", res.Class(), d.RevDigest())
-	r.Sample("%d-statement file, statement %d fails in --tx-mode none -> %s; history [%s]", n, k, res.Class(), d.RevDigest())
-	r.Fired("stmt-failure")
-	if res.Panicked || res.Exit == 0 || !ok || rev.Applied != k {
-		r.Fail(propC12, "setup", "partial-state-not-produced", "expected a partial revision %d/%d, got [%s] (%s)", k, n, d.RevDigest(), res.ErrLine())
-		return
+	r.Logf("partial apply killed=%v -> %s revs=[%s]", killed, res.Class(), d.RevDigest())
+	if killed {
+		r.Sample("%d-statement file, the process is killed after the bookkeeping write of statement %d in --tx-mode none -> %s; history [%s]", n, k-1, res.Class(), d.RevDigest())
+		r.Fired("process-killed-mid-file")
+		if !res.Killed || !ok || rev.Applied != k || rev.Error != "" {
+			r.Fail(propC12, "setup", "partial-state-not-produced", "expected a partial revision %d/%d without error text after the kill, got [%s] (%s)", k, n, d.RevDigest(), res.Class())
+			return
+		}
+		r.Probe("partial-revision-without-error-text")
+	} else {
+		r.Sample("%d-statement file, statement %d fails in --tx-mode none -> %s; history [%s]", n, k, res.Class(), d.RevDigest())
+		r.Fired("stmt-failure")
+		if res.Panicked || res.Exit == 0 || !ok || rev.Applied != k {
+			r.Fail(propC12, "setup", "partial-state-not-produced", "expected a partial revision %d/%d, got [%s] (%s)", k, n, d.RevDigest(), res.ErrLine())
+			return
+		}
 	}
 	// Edit.
 	old := v.Stmts
